@@ -448,8 +448,8 @@ theorem getDecoder_spec (natives : List Color) (c : Color) :
 /-- every format of the driver's table finds a decoder for each of the 12 colours, and the decoder
 found is the exact native one whenever the set has it (finite check over the table). -/
 theorem table_decoders_total :
-    ∀ natives ∈ [Drv.stdNat .gray, Drv.stdNat .alpha, Drv.stdNat .rgb, Drv.stdNat .rgba,
-                 Drv.stdNat .rgb ++ [⟨.rgba, .u8⟩], Drv.stdNat .rgba ++ Drv.stdNat .rgb],
+    ∀ natives ∈ [Drv.C05.stdNat .gray, Drv.C05.stdNat .alpha, Drv.C05.stdNat .rgb, Drv.C05.stdNat .rgba,
+                 Drv.C05.stdNat .rgb ++ [⟨.rgba, .u8⟩], Drv.C05.stdNat .rgba ++ Drv.C05.stdNat .rgb],
     ∀ ch ∈ allChannels, ∀ pr ∈ allPrecisions,
       (getDecoder natives ⟨ch, pr⟩).isSome ∧
       ((⟨ch, pr⟩ : Color) ∈ natives → getDecoder natives ⟨ch, pr⟩ = some ⟨ch, pr⟩) := by
